@@ -97,13 +97,17 @@ class GroupPipe:
     src_indices), so that the wiring itself is part of what is verified.  Implicit components contribute their
     residuals; their states are fresh symbols (or given).  IndepVarComp / auto-IVC outputs are the external inputs."""
 
-    def __init__(self, prob, root="", extra=None, skip=(), assume_for=None):
+    def __init__(self, prob, root="", extra=None, skip=(), assume_for=None, abstract=()):
         import openmdao.api as om
 
         self.prob = prob
         self.model = prob.model
         self.extra = extra or {}
         self.assume_for = assume_for or {}  # component class name -> fn(inputs) -> assumptions that prune its forks
+        # outputs (absolute-name suffixes) that downstream components see as fresh symbols; the computed expression is
+        # kept in self.abstracted[abs name] so that obligations can be stated about it (compositional cut)
+        self.abstract = tuple(abstract)
+        self.abstracted = {}
         top = prob.model if not root else prob.model._get_subsystem(root)
         self.leaves = []
         for s in top.system_iter(recurse=True, include_self=False):
@@ -258,6 +262,9 @@ class GroupPipe:
                     absn = comp.pathname + "." + n
                     if absn in self.guesses:
                         self.computed_for_guess[absn] = out[n]  # the coupled value; downstream consumers keep the guess
+                    elif any(absn.endswith(a) for a in self.abstract):
+                        self.abstracted[absn] = out[n]
+                        vals[absn] = symarray(self.prom_out.get(absn, absn), sc.shape(n))
                     else:
                         vals[absn] = out[n]
         self.vals, self.resid = vals, resid
